@@ -265,7 +265,7 @@ def build(S):
     meshkit.silence_pyplot()
     S.under_contract(FN_FI, FN_WI, FN_CA, FN_PI, FN_PA, FN_PC)
     S.assume("A-ELEMENTWISE (lane independence): find_intersections treats wall edges independently; proved for a one-edge wall (all classes/orderings) and a two-edge wall through the shared vertex; cross-checked natively with 2-5 edges in the bounded part")
-    S.assume("A-SHAPE: polygons.area proved for n=3..6 vertices, polygons.intersect for (closed 2-gon x closed triangle) and (open 3-point x open 3-point) polylines, all coordinate values")
+    S.assume("A-SHAPE: polygons.area proved for n=3..6 vertices, polygons.intersect for (closed 2-gon x closed triangle), (open 3-point x open 3-point), (open segment x closed triangle) and (closed triangle x open segment), all coordinate values")
     S.assume("preconditions exposed: wall edges and the segment have non-zero length (a zero-length wall edge divides by zero in the b-class branch); completeness is stated for segments that are not parallel within the code's own 1e-15 slope tolerance")
     with numpy_shimmed():
         S.contract("find_intersections[sound]", FN_FI, run_fi_sound, shape="one wall edge, 8 real coordinates", max_paths=3000)
@@ -277,3 +277,5 @@ def build(S):
             S.contract("polygons.area[n=%d]" % n, FN_PA, run_area(n), shape="n=%d" % n)
         S.contract("polygons.intersect[closed 2-gon x closed 3-gon]", FN_PI, run_poly_intersect(2, 3, True, True), shape="2x3", max_paths=5000)
         S.contract("polygons.intersect[open 3 x open 3]", FN_PI, run_poly_intersect(3, 3, False, False), shape="3x3 open", max_paths=5000)
+        S.contract("polygons.intersect[open segment x closed 3-gon]", FN_PI, run_poly_intersect(2, 3, False, True), shape="1 segment x 3 edges (the closing edge of the polygon counts)", max_paths=5000)
+        S.contract("polygons.intersect[closed 3-gon x open segment]", FN_PI, run_poly_intersect(3, 2, True, False), shape="3 edges x 1 segment", max_paths=5000)
